@@ -439,6 +439,18 @@ def signature(o_or_cfg, impl, check):
     return {"impl": impl, "model": cfg["model"], "check": check}
 
 
+def sweep_old(prop, max_age=3600):
+    """Remove this check's per-process case files of earlier runs (older than an hour)."""
+    import glob
+    import time
+    for f in glob.glob(os.path.join(C.run_dir(prop), "*corr_p*")):
+        try:
+            if time.time() - os.path.getmtime(f) > max_age:
+                os.remove(f)
+        except OSError:
+            pass
+
+
 class C28(C.Check):
     prop = "C28"
     coq_dir = "C28"
@@ -471,7 +483,7 @@ class C28(C.Check):
     def cases(self, ctx):
         rng = ctx.rng(28)
         cfgs = [c["cfg"] for c in ctx.corpus() if "cfg" in c] + fixed_cfgs()
-        n_exact, n_free = (6, 3) if ctx.quick else (40, 30)
+        n_exact, n_free = (4, 2) if ctx.quick else (36, 24)
         for i in range(n_exact):
             cfgs.append(gen_cfg(rng, i, True))
         for i in range(n_free):
@@ -480,6 +492,7 @@ class C28(C.Check):
 
     def correspondence(self, ctx, res):
         quiet()
+        sweep_old(self.prop)
         self.obs = []
         checks, meta = [], []
         ndiff = dbad = 0
@@ -500,7 +513,7 @@ class C28(C.Check):
                 for name, term in coq_checks(o):
                     checks.append(term)
                     meta.append({"cfg": cfg, "impl": o["impl"], "check": name})
-        bad = C.eval_cases(self.prop, "corr", HEADER, checks, shard=150, jobs=4)
+        bad = C.eval_cases(self.prop, "corr_p%d" % os.getpid(), HEADER, checks, shard=150, jobs=4)
         for i in bad[:4]:
             res.add_broken("correspondence", "correlated field %s vs coq/C28/Model.v (%s)" % (meta[i]["impl"], meta[i]["check"]), meta[i])
         distinct = len({json.dumps([m["cfg"]["model"], m["cfg"]["np_kind"], m["cfg"]["renorm"], m["impl"], m["check"],
@@ -548,7 +561,7 @@ class C28(C.Check):
             if len(pair) > 1:
                 report(oj["cfg"], "classic", direct_failures(pair[1], other=oj))
         rng = ctx.rng(29)
-        nres = (2 if ctx.quick else 10) * budget
+        nres = (1 if ctx.quick else 10) * budget
         for i in range(nres):
             cfg = gen_cfg(rng, 2 * i + (i % 2), False)
             n += 1
